@@ -317,6 +317,11 @@ func alphabet(prop string, thorough bool) []Op {
 		if strings.HasPrefix(o.Name, "interrupt:") && prop != "C01" {
 			continue // interrupted builds: C01 here, every crash point in C03
 		}
+		if strings.Contains(o.Name, "(one load)") && (prop == "C02" || prop == "C18") {
+			// two runs on one loaded Project: C02 quantifies over builds that are each preceded by
+			// a fresh load, and C18's automaton is per build (its own one-Project part is (e))
+			continue
+		}
 		if o.Name != "dep:cycle" && (o.Name != "sabotage:leaf" || prop == "C18") {
 			all = append(all, o.Name)
 		}
